@@ -36,6 +36,7 @@ class _(Contract):
     params = {"graph": "graph", "a": "node", "b": "node", "conditions": ("nodeset", "none")}
     allowed_raises = ("KeyError", "NodeNotFound")
     theory = "axiomatic (closure lemmas)"
+    expensive = True
 
     def adapt(self, ex, env):
         a = super().adapt(ex, env)
@@ -87,3 +88,60 @@ class _(Contract):
         C = a.C
         return VObj(cls, {"separated": VBool(sep), "left": VNode(lo), "right": VNode(hi),
                           "conditions": VSeq(lambda p: C.has(p), lambda p, q: L.And(C.has(p), C.has(q), lt(p, q)))})
+
+
+@contract("y0.struct.DSeparationJudgement.create", props=["C15", "C04"])
+class _(Contract):
+    """Canonical form: left <= right in the variable order, conditions without duplicates in increasing order."""
+    params = {"cls": ("const", None), "left": "node", "right": "node", "conditions": ("nodeset", "none"), "separated": ("bool", "omit")}
+
+    def make_inputs(self, L, variant):
+        env, wf, probes = super().make_inputs(L, variant)
+        env["cls"] = "CLS"
+        return env, wf, probes
+
+    def adapt(self, ex, env):
+        from y0vc.values import VFunc
+        if env.get("cls") == "CLS":
+            env["cls"] = VFunc("class", ex.repo.resolve("y0.struct.DSeparationJudgement"))
+        a = super().adapt(ex, env)
+        L = ex.L
+        c = getattr(a, "conditions", None)
+        a.C = VSet(lambda x: L.F()) if c is None or isinstance(c, VNone) else as_nodes(ex, c)
+        a.sep = a.separated.t if isinstance(getattr(a, "separated", None), VBool) else L.T()
+        return a
+
+    def _parts(self, ex, a):
+        L = ex.L
+        lt = L.var_order()
+        x, y = a.left.t, a.right.t
+        first = L.Or(lt(x, y), x == y)
+        return lt, z3.If(first, x, y), z3.If(first, y, x)
+
+    def post(self, ex, a, res):
+        L = ex.L
+        if not (isinstance(res, VObj) and getattr(res.cls, "name", "") == "DSeparationJudgement"):
+            return {"type": L.F()}
+        lt, lo, hi = self._parts(ex, a)
+        f = res.fields
+        out = {"separated": f["separated"].t == a.sep if isinstance(f.get("separated"), VBool) else L.F(),
+               "left": f["left"].t == lo if isinstance(f.get("left"), VNode) else L.F(),
+               "right": f["right"].t == hi if isinstance(f.get("right"), VNode) else L.F(),
+               "canonical.ends": L.Not(lt(f["right"].t, f["left"].t)) if isinstance(f.get("left"), VNode) and isinstance(f.get("right"), VNode) else L.F()}
+        c = f.get("conditions")
+        if isinstance(c, VSet) and getattr(c, "seq_view", None) is not None:
+            c = c.seq_view
+        if isinstance(c, VSeq):
+            out["conditions.members"] = L.eq_set(c.mem, a.C.has)
+            out["canonical.conditions"] = L.forall(2, lambda p, q: L.Implies(L.And(c.mem(p), c.mem(q)), c.before(p, q) == lt(p, q)))
+        else:
+            out["conditions.members"] = L.F()
+        return out
+
+    def result(self, ex, a):
+        L = ex.L
+        lt, lo, hi = self._parts(ex, a)
+        C = a.C
+        return VObj(ex.repo.resolve("y0.struct.DSeparationJudgement"),
+                    {"separated": VBool(a.sep), "left": VNode(lo), "right": VNode(hi),
+                     "conditions": VSeq(lambda p: C.has(p), lambda p, q: L.And(C.has(p), C.has(q), lt(p, q)))})
